@@ -34,9 +34,15 @@ def _probes():
     import sympy  # pylint: disable=import-outside-toplevel
     from sympy.core.parameters import global_parameters  # pylint: disable=import-outside-toplevel
     out = {"flag": bool(global_parameters.evaluate)}
-    x = sympy.Symbol("x")
+    x, y = sympy.Symbol("x"), sympy.Symbol("y")
     out["x_plus_x"] = str(x + x)
     out["two_times_three"] = str(sympy.Integer(2) * sympy.Integer(3))
+    # every switch of SymPy's global parameters, and computations that depend on each of them
+    for k, v in sorted(vars(global_parameters).items()):
+        out["global_parameters." + k] = repr(v)
+    out["two_times_sum"] = str(2 * (x + y))
+    out["half_times_sum"] = str(sympy.Rational(1, 2) * (x + y))
+    out["exp_pow"] = sympy.srepr(sympy.exp(x))
     try:
         from symplyphysics import Quantity, units  # pylint: disable=import-outside-toplevel
         from symplyphysics.definitions import density_from_mass_volume as law  # pylint: disable=import-outside-toplevel
@@ -46,6 +52,20 @@ def _probes():
         out["old_evaluation"] = repr(getattr(processors, "_old_evaluation", None))
     except Exception as e:  # pylint: disable=broad-except
         out["calculate_density"] = f"EXC {type(e).__name__}: {e}"
+    # other process-wide state the generator has no business changing
+    import hashlib  # pylint: disable=import-outside-toplevel
+    import warnings  # pylint: disable=import-outside-toplevel
+    from sympy.printing.str import StrPrinter  # pylint: disable=import-outside-toplevel
+    from sympy.printing.latex import LatexPrinter  # pylint: disable=import-outside-toplevel
+    out["cwd"] = os.getcwd()
+    out["environ"] = hashlib.sha1(repr(sorted(os.environ.items())).encode()).hexdigest()
+    out["sys_path"] = hashlib.sha1(repr(sys.path).encode()).hexdigest()
+    out["warnings_filters"] = len(warnings.filters)
+    out["StrPrinter_defaults"] = repr(sorted(StrPrinter._default_settings.items(), key=str))  # pylint: disable=protected-access
+    out["LatexPrinter_defaults"] = repr(sorted(LatexPrinter._default_settings.items(), key=str))  # pylint: disable=protected-access
+    out["Basic_str"] = f"{sympy.Basic.__str__.__module__}.{sympy.Basic.__str__.__qualname__}"
+    out["Basic_repr"] = f"{sympy.Basic.__repr__.__module__}.{sympy.Basic.__repr__.__qualname__}"
+    out["recursion_limit"] = sys.getrecursionlimit()
     return out
 
 
@@ -58,10 +78,17 @@ def _load_build_script(repo: Path):
 
 def mode_full(spec, out):
     repo = Path(spec["repo"])
+    try:
+        script = _load_build_script(repo)          # imports sphinx etc. -- before the first snapshot
+    except BaseException as e:  # pylint: disable=broad-except
+        script = None
+        out["script_error"] = f"{type(e).__name__}: {e}"
+    _probes()                                      # warm-up: the probes' own imports happen here
     out["before"] = _probes()
     t = time.time()
     try:
-        script = _load_build_script(repo)
+        if script is None:
+            raise RuntimeError("docs/build.py could not be loaded: " + out["script_error"])
         import shutil  # pylint: disable=import-outside-toplevel
         real_roles = script.process_generated_files
 
@@ -93,11 +120,27 @@ def mode_full(spec, out):
         out["raw_traceback"] = traceback.format_exc()[-3000:]
     out["raw_s"] = round(time.time() - t, 2)
     out["after_raw"] = _probes()
+    # law modules imported for the FIRST time after generation: must be built exactly as in a clean process
+    fresh = {}
+    try:
+        from symplyphysics.docs.printer_code import code_str  # pylint: disable=import-outside-toplevel
+        for dotted in spec.get("fresh_import", []):
+            if dotted in sys.modules or len(fresh) >= spec.get("fresh_cap", 40):
+                continue
+            try:
+                mod = importlib.import_module(dotted)
+                fresh[dotted] = {a: code_str(getattr(mod, a)) for a in ("law", "definition", "condition") if hasattr(mod, a)}
+            except Exception as e:  # pylint: disable=broad-except
+                fresh[dotted] = {"__error__": f"{type(e).__name__}: {e}"[:200]}
+    except Exception as e:  # pylint: disable=broad-except
+        out["fresh_error"] = f"{type(e).__name__}: {e}"
+    out["fresh_imports"] = fresh
 
 
 def mode_order(spec, out):
     from sympy.core.parameters import global_parameters  # pylint: disable=import-outside-toplevel
     from symplyphysics.docs import build  # pylint: disable=import-outside-toplevel
+    _probes()
     out["before"] = _probes()
     Path("ord").mkdir(exist_ok=True)
     leaks = []
@@ -158,6 +201,7 @@ def mode_reference(spec, out):
     from symplyphysics.core.dimensions import print_dimension  # pylint: disable=import-outside-toplevel
     res = {}
     phase2 = []
+    _probes()                                      # same number of probe calls as the generator worker (symbol counters)
     out["before"] = _probes()
     # phase 1: same order and same amount of symbol creation as the generator (its rendering of evaluated private
     # intermediates depends on the process-global symbol counter)
@@ -225,6 +269,11 @@ def mode_reference(spec, out):
         for m, val in pend:
             obj = getattr(live, m["name"], None) if live is not None else None
             m["live"] = obj is not None
+            if obj is not None and m["name"] in ("law", "definition", "condition"):
+                try:
+                    m["live_code"] = code_str(obj)
+                except Exception:  # pylint: disable=broad-except
+                    pass
             if obj is None:
                 obj = val
             try:
